@@ -1,4 +1,4 @@
-import AkVerif.Lemmas.TemplatesConform
+import AkVerif.Lemmas.TemplatesNesting
 /-!
 # C05 — list, map and sequence templates return exactly the denoted items
 
@@ -201,6 +201,17 @@ theorem final_delim_map (cl : Cleanuper) (o : MapOpts) (wf : o.WF)
   · intro t t' pairs f f' h h'
     rw [cleanup_map cl o wf hT h fc fch, cleanup_map cl o wf hT h' fc fch]
 
+/-- **Nesting.** For the json-like grammar `VALUE -> WORD | LIST | MAP`, `LIST = ListProds(…, VALUE, …)`,
+`MAP = MapProds(…, WORD, …, VALUE, …)` with any well-formed option combination (`JsonG`: brackets or none, delimiter
+or none, final delimiters, optional; `VALUE` squashable, a choice symbol, not kept): if the raw tree `t` denotes the
+data `d` (`Den`: words, lists of denoted items, maps of word keys and denoted values — to depth `n`, any `n`, with or
+without final delimiters) then its clean-up as a container item succeeds and the entry put into the enclosing
+container is exactly the Python value of `d` (`pyval`: `str`, `list` in item order, `dict` in first-occurrence key
+order with the last value of a repeated key). This is the model-level form of `parse(render(d)).value == d`. -/
+theorem nesting (G : JsonG) (n : Nat) (t : Val) (d : Data) (h : Den G n t d) :
+    ∃ r, cleanup G.cl t true false = .ok r ∧ entry r.1 = pyval d :=
+  den_clean G n t d h
+
 /-! Non-vacuity: the hypotheses hold for `LIST = ListProds('[', 'ITEM', ',', ']')`, `MAP = MapProds('{', 'WORD', ':',
 'VALUE', ',', '}')` and concrete raw trees, and the kernel evaluates the model on them. -/
 
@@ -213,17 +224,19 @@ private def exCl : Cleanuper :=
     keep := ["E".toList], squash := ["ITEM".toList, "VALUE".toList] }
 private def tok (n s : String) : Val := .elem n.toList true (.str s.toList)
 private def nd (n : String) (xs : List Val) : Val := .elem n.toList false (.list xs)
+private def gnd (n : String) (suffix : Name) (xs : List Val) : Val := .elem (n.toList ++ suffix) false (.list xs)
 private def item (s : String) : Val := nd "ITEM" [tok "WORD" s]
 /-- raw tree of `[a, b,]` -/
 private def exT : Val :=
   nd "LIST" [tok "[" "[", item "a",
-    nd "LIST__TAIL" [tok "," ",", item "b", nd "LIST__TAIL" [tok "," ","]], tok "]" "]"]
+    gnd "LIST" tailSuffix [tok "," ",", item "b", gnd "LIST" tailSuffix [tok "," ","]], tok "]" "]"]
 /-- raw tree of `{k: x, z: y, k: w}` -/
-private def kv (k v : String) : Val := nd "MAP__KV_PAIR" [tok "WORD" k, tok ":" ":", nd "VALUE" [tok "WORD" v]]
+private def kv (k v : String) : Val :=
+  gnd "MAP" kvPairSuffix [tok "WORD" k, tok ":" ":", nd "VALUE" [tok "WORD" v]]
 private def exMT : Val :=
   nd "MAP" [tok "{" "{", kv "k" "x",
-    nd "MAP__ELEMENTS" [tok "," ",", kv "z" "y",
-      nd "MAP__ELEMENTS" [tok "," ",", kv "k" "w", .elem "MAP__ELEMENTS".toList true .none]], tok "}" "}"]
+    gnd "MAP" kvTailSuffix [tok "," ",", kv "z" "y",
+      gnd "MAP" kvTailSuffix [tok "," ",", kv "k" "w", .elem ("MAP".toList ++ kvTailSuffix) true .none]], tok "}" "}"]
 
 example : mkListOpts ⟨some "[".toList, "ITEM".toList, some ",".toList, some "]".toList, none, none⟩ "LIST".toList =
     .ok exL := by rfl
@@ -238,5 +251,48 @@ example : cleanup exCl exMT false false =
   rfl
 example : flattenSeq (nd "S" [nd "S__ELEMENT" [tok "WORD" "a"], nd "S" [nd "S__ELEMENT" [tok "WORD" "b"],
     .elem "S".toList true .none]]) = .ok (.elem "S".toList true (.list [tok "WORD" "a", tok "WORD" "b"])) := by rfl
+
+/-- `VALUE -> WORD | LIST | MAP` with `LIST = ListProds('[', 'VALUE', ',', ']')` -/
+private def exLV : ListOpts :=
+  ⟨some "[".toList, "VALUE".toList, some ",".toList, some "]".toList, true, false, "LIST".toList⟩
+private def exG : JsonG where
+  cl := { templates := [("LIST".toList, .list exLV), ("MAP".toList, .map exM)], choice := ["VALUE".toList],
+          keep := ["E".toList], squash := ["VALUE".toList] }
+  value := "VALUE".toList
+  word := "WORD".toList
+  lo := exLV
+  mo := exM
+  lwf := by constructor <;> decide
+  mwf := by constructor <;> decide
+  item_value := rfl
+  key_word := rfl
+  val_value := rfl
+  tpl_list := rfl
+  tpl_map := rfl
+  tpl_value := rfl
+  tpl_word := rfl
+  squash_value := by decide
+  choice_value := by decide
+  keep_value := by decide
+private def vw (s : String) : Val := nd "VALUE" [tok "WORD" s]
+/-- raw tree of `{k: b}` as a value, of `[a, {k: b}]` as a value -/
+private def exKV : Val := gnd "MAP" kvPairSuffix [tok "WORD" "k", tok ":" ":", vw "b"]
+private def exNM : Val :=
+  nd "MAP" [tok "{" "{", exKV, .elem ("MAP".toList ++ kvTailSuffix) true .none, tok "}" "}"]
+private def exNL : Val :=
+  nd "LIST" [tok "[" "[", vw "a",
+    gnd "LIST" tailSuffix [tok "," ",", nd "VALUE" [exNM], .elem ("LIST".toList ++ tailSuffix) true .none],
+    tok "]" "]"]
+example : Den exG 3 (nd "VALUE" [exNL]) (.list [.word "a".toList, .map [("k".toList, .word "b".toList)]]) := by
+  refine Or.inr (Or.inl ⟨exNL, [vw "a", nd "VALUE" [exNM]], false, _, rfl, ?_, rfl, ?_⟩)
+  · exact .br _ _ _ _ _ _ _ _ _ _ _ rfl rfl (.consSome _ _ _ _ _ _ _ _ rfl .nil)
+  · refine ⟨Or.inl ⟨_, rfl, rfl⟩, ?_, trivial⟩
+    refine Or.inr (Or.inr ⟨exNM, [(tok "WORD" "k", vw "b")], false, _, rfl, ?_, rfl, ?_⟩)
+    · exact .br _ _ _ _ _ _ exKV _ _ _ _ _ rfl rfl (.mk _ _ _ _ _ _) .nil
+    · exact ⟨rfl, Or.inl ⟨_, rfl, rfl⟩, trivial⟩
+example : (match cleanup exG.cl (nd "VALUE" [exNL]) true false with
+    | .ok r => some (entry r.1)
+    | .error _ => none) =
+    some (.list [.str "a".toList, .dict [(.str "k".toList, .str "b".toList)]]) := by rfl
 
 end C05
